@@ -316,7 +316,7 @@ theorem step_s0_lift (orc : Oracle) (m : PM) (f : Frame) (inner rest : List Fram
         lift_simp
       · simp only [hl]
         simp only [runValid_spec, PM.k, PM.addCalls, PM.addDiags]
-        generalize hp2 : ({ writeBack p f' with cfg := (writeBack p f').cfg.setLine f'.cfg.line } : Frame) = p2
+        generalize hp2 : ({ writeBack p f' with cfg := (writeBack p f').cfg.afterSection f'.cfg } : Frame) = p2
         cases hv : validVerdict orc (ev.reverse ++ m.trace).length p2 with
         | none =>
           simp only [Option.map_none]
